@@ -144,6 +144,11 @@ func sufficient(nd string, u *userSpec, db string, st *stmtDesc) bool {
 		if st == nil {
 			return false
 		}
+		for _, k := range st.kinds {
+			if adminOnlyKinds[k] {
+				return false // changes the catalogue (databases, users, grants): administrators only
+			}
+		}
 		for _, privs := range st.privs {
 			for _, p := range privs {
 				if p.Admin {
@@ -164,6 +169,14 @@ func sufficient(nd string, u *userSpec, db string, st *stmtDesc) bool {
 		return true
 	}
 	return false
+}
+
+// statement kinds that change the catalogue of databases and users: the property demands an
+// administrator for them whatever RequiredPrivileges says.
+var adminOnlyKinds = map[string]bool{
+	"CreateDatabaseStatement": true, "DropDatabaseStatement": true, "CreateUserStatement": true, "DropUserStatement": true,
+	"GrantStatement": true, "GrantAdminStatement": true, "RevokeStatement": true, "RevokeAdminStatement": true,
+	"SetPasswordUserStatement": true,
 }
 
 var preMuxClass = []string{"/debug/pprof", "/debug/vars", "/debug/query"}
@@ -406,18 +419,48 @@ func Run(c *hx.Ctx) error {
 		e := newEnv(w, cfgSpec{pprof: true}, false)
 		emitWorld(c, w)
 		cases := credCases(w)
+		dbs := []string{targetDB}
+		if thorough {
+			dbs = []string{targetDB, "db1", "nodb"}
+		}
 		for _, st := range stmts {
 			for _, m := range []string{"GET", "POST"} {
-				for _, cc := range cases {
-					if !thorough && cc.transport != "basic" && cc.transport != "bearer" && cc.class != "none" {
-						continue
+				for _, db := range dbs {
+					for _, cc := range cases {
+						if !thorough && cc.transport != "basic" && cc.transport != "bearer" && cc.class != "none" {
+							continue
+						}
+						e.routeOp(c, m, "/query", "/query", db, cc, st)
 					}
-					e.routeOp(c, m, "/query", "/query", targetDB, cc, st)
 				}
 			}
 		}
 		// function level: UserInfo.AuthorizeDatabase / AuthorizeQuery
 		e.authzOps(c, stmts)
+	}
+
+	// seeded worlds: random privilege tables, every live route x every user of the world
+	nWorlds := 2
+	if thorough {
+		nWorlds = 40
+	}
+	for i := 0; i < nWorlds; i++ {
+		w := randomWorld(rng)
+		e := newEnv(w, cfgSpec{logKeeper: true, pprof: true}, false)
+		emitWorld(c, w)
+		cases := worldCases(w)
+		for _, r := range e.liveRoutes() {
+			path := concretePath(r.pattern)
+			for _, db := range []string{"db0", "db1"} {
+				if db == "db1" && (need(r.method, r.pattern) == "public" || strings.Contains(r.pattern, "{repository}")) {
+					continue
+				}
+				for _, cc := range cases {
+					e.routeOp(c, r.method, r.pattern, path, db, cc, nil)
+				}
+			}
+		}
+		c.Count("random-world")
 	}
 
 	// the real authenticate through a probe route
@@ -446,6 +489,12 @@ func Run(c *hx.Ctx) error {
 			steps = 1500
 		}
 		e.grantRevoke(c, rng, steps, stmts)
+	}
+	if thorough && c.Arg("blackbox", "1") != "0" {
+		bbEnv := newEnv(baseWorld(""), cfgSpec{pprof: true, ext: true}, false)
+		if err := blackbox(c, bbEnv.liveRoutes()); err != nil {
+			return err
+		}
 	}
 	c.Stats.Notes = append(c.Stats.Notes,
 		"exhaustive: the route x method x credential-case x transport product is enumerated completely in every tier (hx.Stats has no `exhaustive` field); seeds only vary the fuzzed credentials of the auth ops and the grant/revoke sequence",
